@@ -267,4 +267,15 @@ PROPS = {
         "assumptions": ["as C09"],
         "trusted_base": COMMON_TB + ["models: CrabModel/Inter/{ISyntax,ISemantics,TopDown}.lean"],
     },
+    "C14": {
+        "level": "proof",
+        "lean_modules": ["CrabProofs.Props.C14"],
+        "components": [{"harness": f"h_arr_{d}", "source": "h_arr", "defines": [f"-DVDOM={d}"], "quick": 400,
+                        "thorough": 6000, "shards": 1, "corpus": "h_arr",
+                        "nontrivial": lambda l: "(aload" in l or "(lcheck" in l,
+                        "accept": lambda verdict, req, msg: "[C14]" in msg or verdict == "DRIFT"} for d in range(1, 9)],
+        "rule": "operation histories over a pool of 3 abstract values, integer variables and 2 int arrays (uniform element size 4, sometimes 1 or 8; aligned constant and symbolic indices): numeric assign/assume/forget, array_init, weak/strong store (strong only where the client contract allows; illegal strong stores taint the value and are not judged), store_range, load, array_assign, join, widen, meet, copy, over array_smashing x {intervals, split_dbm, dis_intervals, flat_bool(sparse_dbm)} and array_adaptive x {intervals, split_dbm, term(intervals), flat_bool(intervals)} with the adaptive parameters drawn per history; the Lean driver replays each history on up to 48 witness states carrying their own arrays and checks every exported fact (in particular the loaded value) after every op; non-trivial = the history checks a load",
+        "assumptions": ["word-level assumption: aligned accesses of one uniform element size per array; witnesses leaving it or reading a never-written cell are dropped", "range bounds inclusive (cfg.hpp, implementation and tests)"],
+        "trusted_base": COMMON_TB + ["models: CrabModel/Dom/{ArraySem,ArraySmash,ArrayCells}.lean; driver replay Driver/ArrH.lean"],
+    },
 }
